@@ -19,20 +19,31 @@ import vlib
 from vlib import qlit, ostr, flit, fme
 from props import c01
 
-EXTRA_TARGETS = ['Iso/IsoShow.vo']
+EXTRA_TARGETS = ['Iso/IsoShow.vo', 'Iso/C02Show.vo']
 MANIFEST = dict(
     text="Machine-checked (Coq 8.16) theorems about the model GENERATED on every run from convert / convert_pressure / convert_loading / "
-         "convert_material / convert_temperature (pointisotherm.py, baseisotherm.py) on top of the generated converters of C01: exact single-step "
-         "theorems for all 100 + 729 + 2x361 representation pairs (labels name the target, data times the SI factor, nothing else touched, caches "
-         "reset), 'a refused single-quantity conversion changes nothing' for ALL states and ALL argument strings, convert() = the three steps in "
-         "sequence keeping completed steps, and by induction over ARBITRARY histories of calls naming a representation: no refusal, labels = "
-         "last request of each kind, data = ORIGINAL data converted directly, constructor-valid labels, converting back restores the data; for any "
-         "adsorbate whose constants are read at the kelvin temperature. Calls omitting the unit are covered by the no-op theorem. Histories of real "
-         "PointIsotherms (incl. CoolProp adsorbates stored in degC) are compared with the generated model after every call, and judged by an "
-         "independent direct-conversion oracle. Partial only in that the history theorem quantifies over calls that name a full representation.",
+         "convert_material / convert_temperature (pointisotherm.py, baseisotherm.py) on top of the generated converters of C01. "
+         "Main theorem (history_arbitrary_strings, Iso/C02General.v): for ANY finite history of these calls with ARBITRARY argument strings "
+         "(omitted, empty, repeated, impossible, garbage; single-quantity calls and the combined convert()), from any of the 10 x 27 x 19 x 2 "
+         "configurations, any data, any adsorbate whose constants are read at the kelvin temperature: every call is refused exactly when an "
+         "explicit reference semantics on representations (`resolve`, by string matching) says so; a refused single-quantity call changes "
+         "nothing; convert() is its pressure, material, loading steps run until the first refusal (completed steps kept: "
+         "combined_refusal_keeps_completed_steps, all states, all strings); after every call the data are the ORIGINAL data converted "
+         "directly to the resolved representation, the labels name exactly that representation and pass the constructor's checks; "
+         "converting back to the starting representation restores the original numbers (history_arbitrary_strings_back_restores, no side "
+         "condition). On a fraction / percent isotherm a material-unit string that is no unit of the basis is refused and changes nothing, "
+         "for all states and strings (unknown_material_unit_is_refused_on_fraction_isotherms; repaired in /repo by 4b4712e). Also: exact "
+         "single-step theorems for all 100 + 729 + 2x361 representation pairs, 'refusal changes nothing' for ALL states and strings, omitted "
+         "unit = no-op. Histories of real PointIsotherms (incl. CoolProp adsorbates stored in degC, ~15-50% malformed arguments) are compared "
+         "after every call with the generated model (outcome class, labels, data) AND with the reference semantics evaluated inside Coq "
+         "(refusal pattern, labels), and judged by an independent oracle: labels accepted by the constructor AND naming a representation, "
+         "data == direct conversion of the original data, refusals change nothing, untouched parts untouched.",
     note="Trusted: Coq kernel; Reals axioms; translators tools/py2v_iso.py + py2v_units.py (validated by the per-call correspondence); pandas column "
-         "arithmetic modelled as element-wise scalar arithmetic (conv_col); adsorbate/material property reads are oracles; RNum/QNum carrier argument.",
-    technique="Coq proof (evaluation over label space + induction over histories) on a model regenerated from source; per-call correspondence")
+         "arithmetic modelled as element-wise scalar arithmetic (conv_col); adsorbate/material property reads are oracles; RNum/QNum carrier argument. "
+         "The history theorem assumes an adsorbate with every constant available and positive at the isotherm temperature and a material with "
+         "positive density and molar mass; without them more calls are refused (covered by the refusal theorems and the correspondence only).",
+    technique="Coq proof (string classification + evaluation over label space + induction over histories) on a model regenerated from source; "
+              "per-call correspondence with the generated model and with the reference semantics")
 
 HEADER = """From Coq Require Import QArith ZArith String List.
 From PG Require Import Lib.Num Lib.Py Lib.Show Gen.UnitsGen1 Units.AdsOracle Gen.UnitsGen2 Iso.IsoState Gen.IsoGen Iso.IsoShow.
@@ -207,6 +218,9 @@ def direct(orig, rep0, rep1, ads, mat, TK):
     return p, l
 
 
+GARBAGE = ['bogus', 'bogus', '', '', 'cm3', 'g', 'mol', 'K', 'C', 'mass', 'relative', 'furlong']
+
+
 def gen_histories(tier, seed):
     rnd = random.Random(seed)
     H = []   # (init = (rp, rl, rm, tunit, T, ads_key, mat_key), [calls])
@@ -223,12 +237,12 @@ def gen_histories(tier, seed):
         return (rp, rl, rm, tu, T, ads, mat)
     # (i) single steps, exhaustive per group (sampled for loading/material in quick)
     for rp in PREPS:
-        for m, u in itertools.product(modes + [None, 'bogus'], c01.PUNITS + [None, 'bogus']):
+        for m, u in itertools.product(modes + [None, 'bogus', ''], c01.PUNITS + [None, 'bogus', '']):
             H.append((init(rp=rp, rl=('molar', 'mmol'), rm=('mass', 'g'), tu=rnd.choice(['K', '°C']), ads=rnd.choice(['full', 'water'])), [('P', (m, u))]))
-    ls = [(rl, b, u, rm) for rl in LREPS for b in lb_all + [None, 'bogus'] for u in lunits + [None, 'bogus']
+    ls = [(rl, b, u, rm) for rl in LREPS for b in lb_all + [None, 'bogus', ''] for u in lunits + [None, 'bogus', '']
           for rm in [('mass', 'g'), ('volume', 'cm3'), ('molar', 'mmol')]]
     ms = [(rm, rl, b, u) for rm in MREPS for rl in [('molar', 'mmol'), ('fraction', None), ('percent', None), ('mass', 'mg')]
-          for b in mb_all + [None, 'bogus'] for u in lunits + [None, 'bogus']]
+          for b in mb_all + [None, 'bogus', ''] for u in lunits + [None, 'bogus', '']]
     if tier == 'quick':
         ls = rnd.sample(ls, 1200); ms = rnd.sample(ms, 1200)
     for rl, b, u, rm in ls:
@@ -244,22 +258,22 @@ def gen_histories(tier, seed):
 
         def pick(valid, p_none=0.15):
             r = rnd.random()
-            if r < bad / 2: return 'bogus'
+            if r < bad / 2: return rnd.choice(GARBAGE)     # a string that names nothing here (unknown, empty, or a label of another kind)
             if r < bad / 2 + p_none: return None
             return rnd.choice(valid)
         if k == 'P':
             m = pick(modes)
-            return ('P', (m, pick(c01.PUNITS) if m in (None, 'absolute') or rnd.random() < 0.2 else None))
+            return ('P', (m, pick(c01.PUNITS) if m in (None, '', 'absolute') or rnd.random() < max(0.2, bad) else None))
         if k == 'L':
             b = pick(lb_all)
             us = {'mass': c01.MASSU, 'molar': c01.MOLU, 'volume_gas': c01.VOLU, 'volume_liquid': c01.VOLU}.get(b, lunits)
-            return ('L', (b, pick(us) if b not in ('percent', 'fraction') or rnd.random() < 0.2 else None))
+            return ('L', (b, pick(us) if b not in ('percent', 'fraction') or rnd.random() < max(0.2, bad) else None))
         if k == 'M':
             b = pick(mb_all)
             us = {'mass': c01.MASSU, 'molar': c01.MOLU, 'volume': c01.VOLU}.get(b, lunits)
             return ('M', (b, pick(us)))
         if k == 'T':
-            return ('T', (pick(['K', '°C', 'K', '°C', 'C', 'celsius'], 0.05),))
+            return ('T', (pick(['K', '°C', 'K', '°C', 'C', 'celsius', 'Celsius', 'kcal'], 0.05),))
         p, l, m = rcall(bad, 'P'), rcall(bad, 'L'), rcall(bad, 'M')
         groups = [g[1] if rnd.random() < 0.6 else (None, None) for g in (p, l, m)]
         return ('A', groups[0] + groups[1] + groups[2])
@@ -268,7 +282,58 @@ def gen_histories(tier, seed):
     for i in range(nh):
         ads = rnd.choice(['nodens', 'full', 'full', 'water', 'water', 'nitrogen', 'water', 'nitrogen', 'full', 'water'])
         H.append((init(ads=ads), [rcall() for _ in range(rnd.randint(2, maxlen))]))
+    # (iii) garbage-heavy histories (half of the arguments omitted / empty / unknown / of another kind): the quantifier of the
+    # history theorem over ARBITRARY strings
+    for i in range(nh // 3):
+        ads = rnd.choice(['full', 'full', 'water', 'nitrogen'])
+        H.append((init(ads=ads), [rcall(bad=0.5) for _ in range(rnd.randint(3, maxlen))]))
     return H
+
+
+HEADER_REF = """From Coq Require Import ZArith String List.
+From PG Require Import Iso.C02General Iso.C02Show.
+Import ListNotations. Open Scope string_scope.
+"""
+
+
+def coq_gop(c):
+    k, a = c
+    if k == 'P': return '(GP %s %s)' % (ostr(a[0]), ostr(a[1]))
+    if k == 'L': return '(GL %s %s)' % (ostr(a[0]), ostr(a[1]))
+    if k == 'M': return '(GM %s %s)' % (ostr(a[0]), ostr(a[1]))
+    if k == 'T': return '(GT %s)' % ostr(a[0])
+    return '(GC %s)' % ' '.join(ostr(x) for x in a)
+
+
+def check_reference(rep, H, impl):
+    """the reference semantics `resolve` of the history theorem (Iso/C02General.v), evaluated inside Coq on the same histories:
+    which calls are refused and the seven labels after every call must be those of the implementation. Only histories whose
+    adsorbate has every constant (the theorem's hypothesis): with a CoolProp / incomplete adsorbate more calls may be refused."""
+    idx = [i for i, (init, calls) in enumerate(H) if init[5] == 'full']
+    terms = ['(ref_trace_from %s [%s])' % (' '.join(ostr(x) for x in impl[i][0]['labels']), '; '.join(coq_gop(c) for c in H[i][1])) for i in idx]
+    try:
+        ref = vlib.run_coq_cases('c02r', HEADER_REF, 'fun x : list (list Z) => x', terms, per_file=400, nested=True)
+    except RuntimeError as e:
+        rep.broken_obligation('correspondence:reference-semantics-evaluation', str(e)[-800:])
+        return 0, 0
+    n = dis = 0
+    for i, tr in zip(idx, ref):
+        init, calls = H[i]
+        steps = impl[i][1]
+        for si, (c, (pre, oc, post)) in enumerate(zip(calls, steps)):
+            n += 1
+            want = [1 if oc == 'Ok' else 0] + [lab_code(x) for x in post['labels']]
+            got = list(tr[si]) if si < len(tr) else None
+            if got != want:
+                dis += 1
+                if dis <= 5:
+                    rep.broken_obligation('correspondence:reference-semantics-vs-implementation',
+                                          {'init': [str(x) for x in init], 'calls': [str(x) for x in calls[:si + 1]], 'step': si,
+                                           'implementation': [oc, post['labels']],
+                                           'reference': None if got is None else ['accepted' if got[0] == 1 else 'refused',
+                                                                                   [LABELS[k - 1] if k > 0 else (None if k == 0 else '?') for k in got[1:]]]})
+                break   # later steps of this history start from different states
+    return n, dis
 
 
 def classify(init, call, pre, post, outcome, kind):
@@ -284,7 +349,6 @@ def classify(init, call, pre, post, outcome, kind):
             if ki == 'P' and pm == 'absolute' and omitted(ki, ai, pm, pu): return 'C02:omitted-unit-label-None'
             if ki == 'L' and not frac and omitted(ki, ai, lb, lu): return 'C02:omitted-unit-label-None'
             if ki == 'M' and omitted(ki, ai, mb, mu): return 'C02:omitted-unit-label-None'
-            if ki == 'M' and frac and (ai[0] in (None, '') or ai[0] == mb) and ai[1] is not None: return 'C02:fraction-material-unit-unchecked'
         if k == 'T' and a[0] and 'c' in a[0].lower() and a[0] != '°C': return 'C02:temperature-alias-label'
     if kind == 'refusal-changed-state' and k in ('M', 'A') and frac and init[5] == 'nodens':
         return 'C02:fraction-material-not-atomic'
@@ -389,6 +453,11 @@ def explore(rep, tier, seed):
                 fail('labels-invalid', 'after %r the labels %r are not accepted by the constructor' % (c, post['labels'])); known_bad = True
                 continue
             rep1 = parse_rep(post['labels'])
+            if rep1 is None:
+                # accepted by the constructor's checks, yet the labels name no representation (e.g. a material unit that is no unit
+                # of the material basis on a fraction / percent isotherm: the constructor does not look at it in that mode)
+                fail('labels-name-no-representation', 'after the accepted call %r the labels %r name no representation' % (c, post['labels'])); known_bad = True
+                continue
             if rep0 and rep1 and init[5] != 'nodens':
                 ads, mat = iso.adsorbate, iso.material
                 try:
@@ -401,21 +470,25 @@ def explore(rep, tier, seed):
                     fail('data-not-direct-conversion', 'after %r the data are not the original data converted directly to %r' % (calls[:si + 1], post['labels'])); known_bad = True
                 elif post['labels'] != pre['labels']:
                     nontrivial.add((tuple(pre['labels']), c))
+    n_ref, n_ref_dis = check_reference(rep, H, impl)
     rep.cov['evaluations'] = n_steps
     rep.cov['distinct_nontrivial'] = len(nontrivial)
     rep.cov['rule'] = ('single steps: every pressure state x (mode|None|bogus) x (unit|None|bogus) exhaustively; loading and material states x '
                        'argument combinations (sampled 1200+1200 in quick, exhaustive in thorough); random histories of convert_* / convert() / '
-                       'convert_temperature calls (15% malformed arguments). non-trivial = distinct (labels before, call) that succeeded, '
+                       'convert_temperature calls (15% malformed arguments: unknown, empty, labels of another kind; plus garbage-heavy histories with 50%). non-trivial = distinct (labels before, call) that succeeded, '
                        'changed the labels and passed the direct-conversion oracle')
     rep.cov['input_distribution'] = {'%s/%s' % k: v for k, v in sorted(hist.items())}
     rep.cov['histories'] = len(H)
     rep.cov['correspondence'] = {'steps': n_steps, 'disagreements': n_dis, 'tolerance_rel': 1e-9,
-                                 'what': 'generated IsoGen model (QNum) vs PointIsotherm after every call: outcome class, 7 labels, temperature, both columns, cache reset'}
+                                 'what': 'generated IsoGen model (QNum) vs PointIsotherm after every call: outcome class, 7 labels, temperature, both columns, cache reset',
+                                 'reference_semantics': {'steps': n_ref, 'disagreements': n_ref_dis,
+                                                         'what': 'resolve (Iso/C02General.v, vm_compute) vs PointIsotherm after every call: refused or not, 7 labels; '
+                                                                 'histories with the fully specified user adsorbate'}}
     rep.cov['samples'] += [{'init': [str(x) for x in H[i][0]], 'calls': [str(c) for c in H[i][1]], 'outcomes': [s[1] for s in impl[i][1]]} for i in (0, len(H) // 2, len(H) - 1)]
     rep.cov['trusted_base'] += ['translators tools/py2v_iso.py and tools/py2v_units.py (validated by the correspondence above)',
                                 'oracle: Adsorbate/Material property reads; pandas column arithmetic = element-wise scalar arithmetic (Iso/IsoState.v conv_col)',
                                 'carrier: theorems over RNum, execution over QNum']
-    rep.assumptions += ['histories in the theorem name a full representation at every call; calls omitting units are covered by the refusal theorems and the refuted witnesses',
+    rep.assumptions += ['history theorem: adsorbate with every constant available and positive at the isotherm temperature, material with positive density and molar mass',
                         'IEEE rounding excluded (1e-9 relative over histories)']
 
 
